@@ -8039,6 +8039,29 @@ fn wire_value_type_rank(v: &WireValue) -> u8 {
     }
 }
 
+/// Verification hook: the sort + pagination step of the query path, exactly as
+/// `query_program` applies it (`sort_rows`, total count, `apply_pagination`).
+#[cfg(inputlayer_verif)]
+pub fn verif_sort_paginate(
+    rows: Vec<WireTuple>,
+    order_by: &[(usize, SortDirection)],
+    limit: Option<usize>,
+    offset: Option<usize>,
+) -> (Vec<WireTuple>, usize) {
+    let rows = sort_rows(rows, order_by);
+    let total_count = rows.len();
+    (apply_pagination(rows, limit, offset), total_count)
+}
+
+/// Verification hook: the comparator used by `sort_rows`.
+#[cfg(inputlayer_verif)]
+pub fn verif_compare_wire_values(
+    a: Option<&WireValue>,
+    b: Option<&WireValue>,
+) -> std::cmp::Ordering {
+    compare_wire_values(a, b)
+}
+
 fn extract_predicate_vars(pred: &crate::ast::BodyPredicate, head_vars: &mut Vec<String>) {
     match pred {
         crate::ast::BodyPredicate::Positive(atom) => {
